@@ -112,18 +112,21 @@ def op_convert(op):
 
 
 def op_cli(op):
-    """decb_to_b09.start() on files in the simulated file system."""
+    """decb_to_b09.start() on files in the simulated file system, or on the std streams."""
     inp = "/simfs/" + op["name"]
     outp = "/simfs/out.b09"
     argv = list(op["flags"])
-    w = World()
+    use_stdin, use_stdout = bool(op.get("stdin")), bool(op.get("stdout"))
+    w = World(stdin_data=op["text"].encode("utf-8") if use_stdin else None)
     with w:
-        w.fs.put(inp, op["text"].encode("utf-8"))
+        if not use_stdin:
+            w.fs.put(inp, op["text"].encode("utf-8"))
         if op.get("config") is not None:
             w.fs.put("/simfs/cfg.yaml", op["config"].encode("utf-8"))
             argv += ["-c", "/simfs/cfg.yaml"]
-        o = run_tool(w, "decb_to_b09", argv + [inp, outp], 10 ** 12)
-        out = w.fs.get(outp)
+        o = run_tool(w, "decb_to_b09", argv + ["-" if use_stdin else inp, "-" if use_stdout else outp],
+                     10 ** 12)
+        out = w.stdout_bytes() if use_stdout else w.fs.get(outp)
     if o.exit != "ok":
         return {"r": "REFUSED:" + str(o.detail)}
     return {"r": "OK:" + _sha(out if out is not None else b"<none>"), "len": len(out or b"")}
